@@ -192,16 +192,21 @@ fn write_bounds<W: Write>(instance: &v1::Instance, out: &mut W) -> Result<(), Mp
             .get(&dvar_id)
             .ok_or(MpsWriteError::InvalidVariableId(dvar_id))?;
         let name = dvar_name(dvar);
-        if let Some(bound) = &dvar.bound {
-            let (low_kind, up_kind) = match dvar.kind {
-                // for now ignoring the BV specifier for binary variables
-                // due to uncertainty in how widely supported it is.
-                1 | 2 => ("LI", "UI"),
-                _ => ("LO", "UP"),
-            };
-            writeln!(out, "  {up_kind} BND1    {name}  {}", bound.upper)?;
-            writeln!(out, "  {low_kind} BND1    {name}  {}", bound.lower)?;
+        // An unspecified bound means unbounded, or [0, 1] for binary variables.
+        // It has to be written explicitly since the MPS default is [0, +inf).
+        let (lower, upper) = match (&dvar.bound, dvar.kind) {
+            (Some(bound), _) => (bound.lower, bound.upper),
+            (None, 1) => (0.0, 1.0),
+            (None, _) => (f64::NEG_INFINITY, f64::INFINITY),
         };
+        let (low_kind, up_kind) = match dvar.kind {
+            // for now ignoring the BV specifier for binary variables
+            // due to uncertainty in how widely supported it is.
+            1 | 2 => ("LI", "UI"),
+            _ => ("LO", "UP"),
+        };
+        writeln!(out, "  {up_kind} BND1    {name}  {upper}")?;
+        writeln!(out, "  {low_kind} BND1    {name}  {lower}")?;
     }
     Ok(())
 }
